@@ -242,6 +242,11 @@ class C20(vlib.Check):
                         continue
                     if type(got) is not type(v) or got != v:
                         return {"key": "roundtrip-differs:%s" % type(v).__name__, "what": "%s.%s written as %r reads back as %r" % (sec, k, v, got)}
+            # the two dictionaries the pipeline works with: conformer generation (with the preprocessing options merged in) and fingerprinting
+            want_conf = dict(secs.get("conformer_generation", {}))
+            want_conf.update(secs.get("preprocessing", {}))
+            if confgen != want_conf or fprint != secs.get("fingerprinting", {}):
+                return {"key": "params-to-dicts-differs", "what": "params_to_dicts gives %r / %r, the sections hold %r / %r" % (confgen, fprint, want_conf, secs.get("fingerprinting", {}))}
             if case["fill"]:
                 d = packaged_defaults()
                 for sec in SECTIONS:
